@@ -8,9 +8,9 @@ the model is ASCII, see notes/C18.md).  The three Go maps `m`, `wild`, `w`
 Part 1  names:        `dns.IsFqdn`, `dns.Fqdn`, `dns.CanonicalName`
 Part 2  matching:     `matchHierarchy`, `Exists`, `setLocked`, `removeLocked`, batches
 Part 3  replies:      `ServeDNS`
-Part 4  persistence:  `snapshotLocked`, `persist` as a labelled transition system
+Part 5  persistence:  `snapshotLocked`, `persist` as a labelled transition system
                       (one step = one critical section / one file-system call)
-Part 5  reload:       `parseHostFile`
+Part 4  reload:       `parseHostFile`
 Part 6  label-level specification (what the property says)
 -/
 namespace SdnsVerif.Model.Blocklist
@@ -178,176 +178,13 @@ def serveDNS (cfg : Cfg) (b : Mem) (qname : Str) (qtype : Nat) : Outcome :=
           answer := [], ns := [{ name := qname, rrtype := typeSOA, ttl := 86400, data := qname }] }
     { next := false, cancelled := true, written := some msg }
 
-/-! ### Part 4 — persistence -/
+/-- the replies the handler has handed to writers so far, oldest first.  A
+writer may still hold (not yet have packed) any of them when the next query is
+served, so each must stay what it was: serving only ever appends. -/
+def serveLog (cfg : Cfg) (b : Mem) (log : List Outcome) (qname : Str) (qtype : Nat) : List Outcome :=
+  log ++ [serveDNS cfg b qname qtype]
 
-/-- `blockSnapshot`. -/
-structure Snap where
-  version : Nat
-  exact : List Str
-  wild : List Str
-deriving Repr, DecidableEq
-
-def headerLine : Str := "# The file generated by auto. DO NOT EDIT".toList
-
-/-- the lines `persist` writes for a snapshot, in the order it writes them
-(one `WriteString` each). -/
-def render (s : Snap) : List Str :=
-  headerLine :: (s.exact ++ s.wild.map (fun x => '*' :: '.' :: x))
-
-inductive Stage | writing | synced | closed | renamed
-deriving Repr, DecidableEq
-
-/-- a `persist` call that holds `saveMu`: its snapshot, the lines that reached
-its temp file so far, and how far it got. -/
-structure Inflight where
-  snap : Snap
-  written : List Str
-  stage : Stage
-deriving Repr, DecidableEq
-
-inductive MutOp
-  | set (k : Str)
-  | remove (k : Str)
-  | setBatch (ks : List Str)
-  | removeBatch (ks : List Str)
-deriving Repr, DecidableEq
-
-/-- the in-memory half of `Set` / `Remove` / `SetBatch` / `RemoveBatch`:
-new memory and "take a snapshot and persist" (`ok` / `added > 0` / `removed > 0`). -/
-def applyOp (b : Mem) : MutOp → Mem × Bool
-  | .set k => setLocked b k
-  | .remove k => removeLocked b k
-  | .setBatch ks => let r := setBatchLocked b ks; (r.1, decide (r.2 > 0))
-  | .removeBatch ks => let r := removeBatchLocked b ks; (r.1, decide (r.2 > 0))
-
-/-- the number the API call returns (`true` = 1). -/
-def applyOpCount (b : Mem) : MutOp → Nat
-  | .set k => if (setLocked b k).2 then 1 else 0
-  | .remove k => if (removeLocked b k).2 then 1 else 0
-  | .setBatch ks => (setBatchLocked b ks).2
-  | .removeBatch ks => (removeBatchLocked b ks).2
-
-/-- Process + file system.  `taken` and `failed` are ghost history (never read
-by a step): every snapshot ever taken, and the versions whose `persist` ended
-in an I/O error. -/
-structure PState where
-  mem : Mem := {}
-  version : Nat := 0
-  lastPersisted : Nat := 0
-  /-- content of `<dir>/local` (lines), `none` = the file does not exist -/
-  main : Option (List Str) := none
-  /-- snapshots taken under `mu` whose `persist` has not yet acquired `saveMu` -/
-  pending : List Snap := []
-  /-- the `persist` that holds `saveMu`, with its temp file -/
-  inflight : Option Inflight := none
-  taken : List Snap := []
-  failed : List Nat := []
-deriving Repr
-
-/-- Atomic steps.  `ok = false` is the I/O error outcome of that call. -/
-inductive Step
-  /-- `mu.Lock(); xLocked(..); snapshotLocked(); mu.Unlock()` -/
-  | mutate (op : MutOp)
-  /-- `saveMu.Lock()` by the call that carries `pending[i]`, version check, `os.CreateTemp` -/
-  | begin (i : Nat) (ok : Bool)
-  /-- the next `tmp.WriteString` -/
-  | write (ok : Bool)
-  /-- `tmp.Sync()` -/
-  | sync (ok : Bool)
-  /-- `tmp.Close()` -/
-  | close (ok : Bool)
-  /-- `os.Rename(tmpName, path)` -/
-  | rename (ok : Bool)
-  /-- `b.lastPersisted = s.version; saveMu.Unlock()` -/
-  | commit
-deriving Repr, DecidableEq
-
-/-- error path of `persist`: temp file removed, `saveMu` released, nothing else changes. -/
-def failInflight (s : PState) (f : Inflight) : PState :=
-  { s with inflight := none, failed := f.snap.version :: s.failed }
-
-def step (s : PState) : Step → PState
-  | .mutate op =>
-    let r := applyOp s.mem op
-    if r.2 then
-      let snap : Snap := { version := s.version + 1, exact := r.1.m, wild := r.1.wild }
-      { s with mem := r.1, version := s.version + 1, pending := s.pending ++ [snap], taken := snap :: s.taken }
-    else { s with mem := r.1 }
-  | .begin i ok =>
-    match s.inflight with
-    | some _ => s                       -- saveMu is held
-    | none =>
-      match s.pending[i]? with
-      | none => s
-      | some snap =>
-        let s' := { s with pending := s.pending.eraseIdx i }
-        if snap.version ≠ 0 ∧ snap.version ≤ s.lastPersisted then s'      -- stale: dropped
-        else if ok then { s' with inflight := some { snap := snap, written := [], stage := .writing } }
-        else { s' with failed := snap.version :: s'.failed }             -- CreateTemp failed
-  | .write ok =>
-    match s.inflight with
-    | some f =>
-      if f.stage = .writing ∧ f.written.length < (render f.snap).length then
-        if ok then { s with inflight := some { f with written := (render f.snap).take (f.written.length + 1) } }
-        else failInflight s f
-      else s
-    | none => s
-  | .sync ok =>
-    match s.inflight with
-    | some f =>
-      if f.stage = .writing ∧ f.written.length = (render f.snap).length then
-        if ok then { s with inflight := some { f with stage := .synced } } else failInflight s f
-      else s
-    | none => s
-  | .close ok =>
-    match s.inflight with
-    | some f =>
-      if f.stage = .synced then
-        if ok then { s with inflight := some { f with stage := .closed } } else failInflight s f
-      else s
-    | none => s
-  | .rename ok =>
-    match s.inflight with
-    | some f =>
-      if f.stage = .closed then
-        -- the rename moves the TEMP FILE's content over the main file
-        if ok then { s with main := some f.written, inflight := some { f with stage := .renamed } }
-        else failInflight s f
-      else s
-    | none => s
-  | .commit =>
-    match s.inflight with
-    | some f =>
-      if f.stage = .renamed then { s with lastPersisted := f.snap.version, inflight := none } else s
-    | none => s
-
-def run (s : PState) (steps : List Step) : PState := steps.foldl step s
-
-/-- what is on disk if the process dies now: the main file and the temp file
-of the `persist` in progress (if it has not been renamed or removed). -/
-def crashImage (s : PState) : Option (List Str) × Option (List Str) :=
-  (s.main, match s.inflight with
-           | some f => if f.stage = .renamed then none else some f.written
-           | none => none)
-
-/-- the whole `persist(snap)` call for `pending[i]`, failing at `failAt`
-(`0` = no failure, `1` = CreateTemp, `2` = first write, `3` = sync, `4` = close,
-`5` = rename). Used by the line-protocol driver. -/
-def persistSteps (s : PState) (i : Nat) (failAt : Nat) : List Step :=
-  match s.pending[i]? with
-  | none => []
-  | some snap =>
-    let n := (render snap).length
-    if failAt = 1 then [.begin i false]
-    else if failAt = 2 then [.begin i true, .write false]
-    else
-      [.begin i true] ++ List.replicate n (.write true) ++
-      (if failAt = 3 then [.sync false]
-       else [.sync true] ++
-        (if failAt = 4 then [.close false]
-         else [.close true] ++ (if failAt = 5 then [.rename false] else [.rename true, .commit])))
-
-/-! ### Part 5 — reload (`parseHostFile`) -/
+/-! ### Part 4 — reload (`parseHostFile`) -/
 
 /-- `unicode.IsSpace` on ASCII. -/
 def isSpace (c : Char) : Bool :=
@@ -405,8 +242,203 @@ def parseHostFile (b : Mem) (text : Str) : Mem :=
 /-- the bytes `persist` produces (every line is followed by `\n`). -/
 def fileText (lines : List Str) : Str := lines.flatMap (fun l => l ++ ['\n'])
 
+/-! ### Part 5 — persistence -/
+
+/-- `blockSnapshot`. -/
+structure Snap where
+  version : Nat
+  exact : List Str
+  wild : List Str
+deriving Repr, DecidableEq
+
+def headerLine : Str := "# The file generated by auto. DO NOT EDIT".toList
+
+/-- the lines `persist` writes for a snapshot, in the order it writes them
+(one `WriteString` each). -/
+def render (s : Snap) : List Str :=
+  headerLine :: (s.exact ++ s.wild.map (fun x => '*' :: '.' :: x))
+
 /-- the names a snapshot stands for, in file order. -/
 def snapNames (s : Snap) : List Str := s.exact ++ s.wild.map (fun x => '*' :: '.' :: x)
+
+
+inductive Stage | writing | synced | closed | renamed
+deriving Repr, DecidableEq
+
+/-- a `persist` call that holds `saveMu`: its snapshot, the lines that reached
+its temp file so far, and how far it got. -/
+structure Inflight where
+  snap : Snap
+  written : List Str
+  stage : Stage
+deriving Repr, DecidableEq
+
+inductive MutOp
+  | set (k : Str)
+  | remove (k : Str)
+  | setBatch (ks : List Str)
+  | removeBatch (ks : List Str)
+deriving Repr, DecidableEq
+
+/-- the in-memory half of `Set` / `Remove` / `SetBatch` / `RemoveBatch`:
+new memory and "take a snapshot and persist" (`ok` / `added > 0` / `removed > 0`). -/
+def applyOp (b : Mem) : MutOp → Mem × Bool
+  | .set k => setLocked b k
+  | .remove k => removeLocked b k
+  | .setBatch ks => let r := setBatchLocked b ks; (r.1, decide (r.2 > 0))
+  | .removeBatch ks => let r := removeBatchLocked b ks; (r.1, decide (r.2 > 0))
+
+/-- the number the API call returns (`true` = 1). -/
+def applyOpCount (b : Mem) : MutOp → Nat
+  | .set k => if (setLocked b k).2 then 1 else 0
+  | .remove k => if (removeLocked b k).2 then 1 else 0
+  | .setBatch ks => (setBatchLocked b ks).2
+  | .removeBatch ks => (removeBatchLocked b ks).2
+
+/-- Process + file system.  `taken` and `failed` are ghost history (never read
+by a step): every snapshot ever taken, and the versions whose `persist` ended
+in an I/O error. -/
+structure PState where
+  mem : Mem := {}
+  version : Nat := 0
+  lastPersisted : Nat := 0
+  /-- content of `<dir>/local` (lines), `none` = the file does not exist -/
+  main : Option (List Str) := none
+  /-- snapshots taken under `mu` whose `persist` has not yet acquired `saveMu` -/
+  pending : List Snap := []
+  /-- the `persist` that holds `saveMu`, with its temp file -/
+  inflight : Option Inflight := none
+  taken : List Snap := []
+  failed : List Nat := []
+  /-- ghost: a directory reload (`readBlocklists`, which uses the non-persisting
+  `set`) has changed memory since the last snapshot was taken -/
+  dirty : Bool := false
+deriving Repr
+
+/-- Atomic steps.  `ok = false` is the I/O error outcome of that call. -/
+inductive Step
+  /-- `mu.Lock(); xLocked(..); snapshotLocked(); mu.Unlock()` -/
+  | mutate (op : MutOp)
+  /-- `saveMu.Lock()` by the call that carries `pending[i]`, version check, `os.CreateTemp` -/
+  | begin (i : Nat) (ok : Bool)
+  /-- the next `tmp.WriteString` -/
+  | write (ok : Bool)
+  /-- `tmp.Sync()` -/
+  | sync (ok : Bool)
+  /-- `tmp.Close()` -/
+  | close (ok : Bool)
+  /-- `os.Rename(tmpName, path)` -/
+  | rename (ok : Bool)
+  /-- `b.lastPersisted = s.version; saveMu.Unlock()` -/
+  | commit
+  /-- `readBlocklists()`: the directory walk of `refreshRemote` (scheduled by `New`
+  one second after start-up) or of any other caller, at an arbitrary moment -/
+  | dirLoad
+deriving Repr, DecidableEq
+
+/-- error path of `persist`: temp file removed, `saveMu` released, nothing else changes. -/
+def failInflight (s : PState) (f : Inflight) : PState :=
+  { s with inflight := none, failed := f.snap.version :: s.failed }
+
+/-- memory after `readBlocklists` over a directory that holds the main file and
+(possibly) the staging file of a `persist` in progress; `filepath.Walk` visits
+`local` before `local.tmp.*`.  Entries are merged with the non-persisting `set`. -/
+def dirLoadMem (mem : Mem) (main : Option (List Str)) (temp : Option (List Str)) : Mem :=
+  let m1 := match main with
+    | some ls => parseHostFile mem (fileText ls)
+    | none => mem
+  match temp with
+  | some ls => parseHostFile m1 (fileText ls)
+  | none => m1
+
+def step (s : PState) : Step → PState
+  | .mutate op =>
+    let r := applyOp s.mem op
+    if r.2 then
+      let snap : Snap := { version := s.version + 1, exact := r.1.m, wild := r.1.wild }
+      { s with mem := r.1, version := s.version + 1, pending := s.pending ++ [snap], taken := snap :: s.taken,
+               dirty := false }
+    else { s with mem := r.1 }
+  | .begin i ok =>
+    match s.inflight with
+    | some _ => s                       -- saveMu is held
+    | none =>
+      match s.pending[i]? with
+      | none => s
+      | some snap =>
+        let s' := { s with pending := s.pending.eraseIdx i }
+        if snap.version ≠ 0 ∧ snap.version ≤ s.lastPersisted then s'      -- stale: dropped
+        else if ok then { s' with inflight := some { snap := snap, written := [], stage := .writing } }
+        else { s' with failed := snap.version :: s'.failed }             -- CreateTemp failed
+  | .write ok =>
+    match s.inflight with
+    | some f =>
+      if f.stage = .writing ∧ f.written.length < (render f.snap).length then
+        if ok then { s with inflight := some { f with written := (render f.snap).take (f.written.length + 1) } }
+        else failInflight s f
+      else s
+    | none => s
+  | .sync ok =>
+    match s.inflight with
+    | some f =>
+      if f.stage = .writing ∧ f.written.length = (render f.snap).length then
+        if ok then { s with inflight := some { f with stage := .synced } } else failInflight s f
+      else s
+    | none => s
+  | .close ok =>
+    match s.inflight with
+    | some f =>
+      if f.stage = .synced then
+        if ok then { s with inflight := some { f with stage := .closed } } else failInflight s f
+      else s
+    | none => s
+  | .rename ok =>
+    match s.inflight with
+    | some f =>
+      if f.stage = .closed then
+        -- the rename moves the TEMP FILE's content over the main file
+        if ok then { s with main := some f.written, inflight := some { f with stage := .renamed } }
+        else failInflight s f
+      else s
+    | none => s
+  | .commit =>
+    match s.inflight with
+    | some f =>
+      if f.stage = .renamed then { s with lastPersisted := f.snap.version, inflight := none } else s
+    | none => s
+  | .dirLoad =>
+    -- reads `local` and the staging file; writes NO file (it only deletes `*.tmp` downloads)
+    let temp := match s.inflight with
+      | some f => if f.stage = .renamed then none else some f.written
+      | none => none
+    let mem' := dirLoadMem s.mem s.main temp
+    { s with mem := mem', dirty := s.dirty || decide (mem' ≠ s.mem) }
+
+def run (s : PState) (steps : List Step) : PState := steps.foldl step s
+
+/-- what is on disk if the process dies now: the main file and the temp file
+of the `persist` in progress (if it has not been renamed or removed). -/
+def crashImage (s : PState) : Option (List Str) × Option (List Str) :=
+  (s.main, match s.inflight with
+           | some f => if f.stage = .renamed then none else some f.written
+           | none => none)
+
+/-- the whole `persist(snap)` call for `pending[i]`, failing at `failAt`
+(`0` = no failure, `1` = CreateTemp, `2` = first write, `3` = sync, `4` = close,
+`5` = rename). Used by the line-protocol driver. -/
+def persistSteps (s : PState) (i : Nat) (failAt : Nat) : List Step :=
+  match s.pending[i]? with
+  | none => []
+  | some snap =>
+    let n := (render snap).length
+    if failAt = 1 then [.begin i false]
+    else if failAt = 2 then [.begin i true, .write false]
+    else
+      [.begin i true] ++ List.replicate n (.write true) ++
+      (if failAt = 3 then [.sync false]
+       else [.sync true] ++
+        (if failAt = 4 then [.close false]
+         else [.close true] ++ (if failAt = 5 then [.rename false] else [.rename true, .commit])))
 
 /-! ### Part 6 — the specification on labels
 
